@@ -99,6 +99,14 @@ check("C08", "runtime monitoring: argument-immutability wrapper (fingerprint bef
       "Trusted: fingerprint definition (n_modes, heralds, internal modes, component digest, U_full to 1e-12).",
       "DESIGN.md 4 C08")
 
+check("C09", "runtime monitoring: post-condition wrappers on unpack_groups/compress_mode_swaps/remove_non_adjacent_bs/copy/"
+      "copy(freeze) (U_full entry-wise, heralds, input size, structural predicates), shadow agreement after rewrites, "
+      "behavioural-independence probes, over seeded random circuits and rewrite sequences",
+      "Held on the circuits and rewrite sequences explored: every rewrite left U_full, heralds, input size and the "
+      "heralded amplitudes unchanged; no group / non-adjacent beam splitter (also inside groups) remained; swap "
+      "compression never grew the component list; editing copy or original never moved the other.",
+      "Trusted: shadow model + fingerprints; U_full compared entry-wise to 1e-9.", "DESIGN.md 4 C09")
+
 NOT_APPLICABLE = []
 _EXPLICIT_NA = {}
 for line in open("/verif/properties.jsonl"):
